@@ -3,6 +3,7 @@ package h_gcsim
 import (
 	"context"
 	"fmt"
+	"os"
 	"strings"
 	"testing"
 	"testing/synctest"
@@ -126,14 +127,15 @@ func run(r *core.R) {
 		w.gcIdleSeenAt = w.now()
 	}
 	// Time between scheduling steps.  Besides the drawn clock jumps (a fault dimension), every other step lets a
-	// millisecond-scale, irregular amount of time pass.  Without it every instant of the run lies on the scheduler's
-	// 100 ms grid, the controller's own timers (1 s batch window, 30 s retry back-off, ticker) keep falling due at
-	// exactly the same instant, and testing/synctest fires same-instant timers in an order drawn from a
-	// per-thread generator the runtime overlay does not seed (runtime/time.go maybeAdd: t.rand = cheaprand()).
+	// millisecond-scale, irregular amount of time pass: steps that take no time at all would keep every instant of
+	// the run on the scheduler's 100 ms grid, where the controller's own timers (1 s batch window, 30 s retry
+	// back-off, ticker) fall due at exactly the same instant over and over.  (testing/synctest fires same-instant
+	// timers in a drawn order; the runtime overlay seeds that draw since tools/mkoverlay.py covers runtime/time.go.)
 	jitterN := 0
+	noJitter := os.Getenv("GCSIM_NO_JITTER") != "" // diagnostic switch: measure the determinism of same-instant timers
 	w.s.TimeJump = func() time.Duration {
 		jitterN++
-		if jitterN%2 == 0 {
+		if jitterN%2 == 0 && !noJitter {
 			return 500*time.Microsecond + time.Duration((jitterN*7919)%997)*time.Microsecond
 		}
 		if w.quiesced || w.runtimeBusy() || !src.Chance(w.pJump, "t_jump") {
